@@ -12,6 +12,10 @@ path <f1>,<f2>,…            -> ok frames=<n> guarded=<k> maxfree=<m> | no-edge
                                                (caller first; every consecutive pair must be a model edge;
                                                 maxfree = longest run of consecutive unguarded frames)
 front <stage> <fn>          -> rec=<0|1> guard=<0|1>      stage ∈ lexer parser resolver cfg (extracted tables)
+arm <StmtKind>              -> descends=<0|1> probed=<0|1> | unknown-arm
+                                               the arm of `exec_stmt` for that statement kind: does it descend into a
+                                               nested block, and is a probe certain on EVERY path before the descent
+                                               (model: the frame's edge to `exec_block` and its guard annotation)
 G <d> [<fn>=<cost>,…]       -> G=<n>           guard-free gap for the given frame costs (default cost 1)
 ```
 -/
@@ -72,6 +76,12 @@ def step (_ : Unit) (line : String) : Unit × String :=
           let n := Bytes.ofString f
           ((), s!"rec={bit (calls.any (fun p => p.1 == n))} guard={bit (sites.contains n)}")
       | none => ((), "bad-op")
+  | ["arm", k] =>
+      match stmtKindFrame (Bytes.ofString k) with
+      | some f =>
+          let d := runtimeEdges.contains (f, Fn.exec_block)
+          ((), s!"descends={bit d} probed={bit (d && runtimeGuarded f)}")
+      | none => ((), "unknown-arm")
   | "G" :: d :: rest =>
       match d.toNat? with
       | some d =>
